@@ -177,7 +177,7 @@ def s2c_pack_job(job):
     for e in rec["entries"]:
         entries.append({"name": uncps(e["name"]), "isdir": e["isdir"], "sub": [uncps(x) for x in e["sub"]],
                         "stray": ["song.sm"] if e["kind"] == "stray" else []})
-    return run_pack(rid, kind, entries, rng.random() < 0.5, rng.random() < 0.5, rng.choice([None, None, "utf-8"]))
+    return run_pack(rid, kind, entries, rng.random() < 0.5, rng.random() < 0.5, rng.choice([None, None, "utf-8", "cp1252", "cp932"]))
 
 
 VOCAB = ["a.sm", "A.SM", "b.Sm", "a.ssc", "B.SSC", "c.sSc", "c.sm.old", "d.ssca", "sm", "ssc", "e.png", "f.ogg", "readme.txt", "song.SM", "x.smx", "y.sm~"]
@@ -211,7 +211,7 @@ def c2s_job(job):
             sims = [n for n in sub if n.lower().endswith((".sm", ".ssc"))]
             entries.append({"name": nm, "isdir": True, "sub": sub, "stray": [n for n in sims if rng.random() < 0.25]})
     rng.shuffle(entries)
-    return run_pack(rid, kind, entries, rng.random() < 0.5, rng.random() < 0.5, rng.choice([None, None, "utf-8"]))
+    return run_pack(rid, kind, entries, rng.random() < 0.5, rng.random() < 0.5, rng.choice([None, None, "utf-8", "cp1252", "cp949"]))
 
 
 def judge(ctx, recs, verdict, label):
